@@ -23,7 +23,10 @@ Inductive bstep :=
 | BLock (is_burn : bool) (sender eth amount symbol ceth : Z)
 | BWhitelist (sender val : Z) (add : bool)
 | BCethReceiver (sender r : Z)
-| BRescue (sender r amount : Z).
+| BRescue (sender r amount : Z)
+(* a claim whose validator field is the all-upper-case bech32 spelling of a validator's address: the whitelist check
+   compares the raw string with the canonical spelling of every whitelisted validator, so it is always refused *)
+| BClaimUpper (pid val cid : Z).
 
 Definition dBStep : dec bstep :=
   k <- dZ ;;
@@ -31,11 +34,12 @@ Definition dBStep : dec bstep :=
   else if k =? 2 then b <- dBool ;; s <- dZ ;; e <- dZ ;; a <- dZ ;; sy <- dZ ;; ce <- dZ ;; dRet (BLock b s e a sy ce)
   else if k =? 3 then s <- dZ ;; v <- dZ ;; ad <- dBool ;; dRet (BWhitelist s v ad)
   else if k =? 4 then s <- dZ ;; r <- dZ ;; dRet (BCethReceiver s r)
+  else if k =? 6 then p <- dZ ;; v <- dZ ;; c <- dZ ;; dRet (BClaimUpper p v c)
   else s <- dZ ;; r <- dZ ;; a <- dZ ;; dRet (BRescue s r a).
 
 Definition signer_of_b (st : bstep) : Z :=
   match st with
-  | BClaim _ v _ => v | BLock _ s _ _ _ _ => s | BWhitelist s _ _ => s | BCethReceiver s _ => s | BRescue s _ _ => s
+  | BClaim _ v _ => v | BLock _ s _ _ _ _ => s | BWhitelist s _ _ => s | BCethReceiver s _ => s | BRescue s _ _ => s | BClaimUpper _ v _ => v
   end.
 
 Definition bhandle (s : bridge_state) (st : bstep) : Outcome bridge_state :=
@@ -49,6 +53,7 @@ Definition bhandle (s : bridge_state) (st : bstep) : Outcome bridge_state :=
   | BWhitelist sd v ad => update_whitelist s sd v ad
   | BCethReceiver sd r => update_ceth_receiver s sd r
   | BRescue sd r a => rescue_ceth s sd r a
+  | BClaimUpper _ _ _ => Err 1
   end.
 
 Definition bdeliver (s : bridge_state) (fee : Z) (st : bstep) : bridge_state * bool :=
